@@ -179,3 +179,65 @@ pub fn p_tail(class: &[&str], acc: Raw, op: &str, t: &Raw) -> Raw {
         mk(op, acc, p_pass(class, t))
     }
 }
+
+// ---- C08: executable transcription of spec/resolve_spec.rs (resolve, scoped) on named raw trees ----------
+use std::collections::{HashMap, HashSet};
+
+fn kind_head(k: &str) -> &str { k.split('(').next().unwrap() }
+fn kind_inner(k: &str) -> &str { let a = k.find('(').unwrap(); &k[a + 1..k.len() - 1] }
+fn is_let(t: &Raw) -> bool { kind_head(&t.kind) == "Let" }
+
+// the chain of nested lets: (name, annotation, definition)*, innermost body
+fn let_chain(t: &Raw) -> (Vec<(String, Option<&Raw>, &Raw)>, &Raw) {
+    let mut defs = vec![];
+    let mut cur = t;
+    while is_let(cur) {
+        let n = cur.kids.len();
+        defs.push((kind_inner(&cur.kind).to_owned(), if n == 3 { Some(&cur.kids[0]) } else { None }, &cur.kids[n - 2]));
+        cur = &cur.kids[n - 1];
+    }
+    (defs, cur)
+}
+
+pub fn resolve_ref(t: &Raw, m: &HashMap<String, usize>, d: usize) -> String {
+    let bind = |m: &HashMap<String, usize>, x: &str, d: usize| { let mut m2 = m.clone(); if x != "_" { m2.insert(x.to_owned(), d); } m2 };
+    match kind_head(&t.kind) {
+        "Variable" => { let x = kind_inner(&t.kind); match m.get(x) { Some(e) if *e < d => format!("#{}", d - 1 - e), _ => "?".into() } }
+        "Lambda" => { let p: Vec<&str> = kind_inner(&t.kind).split(',').collect(); let im = if p[1] == "implicit" { "!" } else { "" };
+            let dom = if t.kids.len() == 2 { resolve_ref(&t.kids[0], m, d) } else { "?".into() };
+            format!("(Lambda{im} {dom} {})", resolve_ref(&t.kids[t.kids.len() - 1], &bind(m, p[0], d), d + 1)) }
+        "Pi" => { let p: Vec<&str> = kind_inner(&t.kind).split(',').collect(); let im = if p[1] == "implicit" { "!" } else { "" };
+            format!("(Pi{im} {} {})", resolve_ref(&t.kids[0], m, d), resolve_ref(&t.kids[1], &bind(m, p[0], d), d + 1)) }
+        "Let" => {
+            let (defs, body) = let_chain(t);
+            let mut m2 = m.clone();
+            for (i, (x, _, _)) in defs.iter().enumerate() { m2 = bind(&m2, x, d + i); }
+            let d2 = d + defs.len();
+            format!("(Let [{}] [{}] {})",
+                defs.iter().map(|(_, a, _)| a.map_or("?".to_owned(), |a| resolve_ref(a, &m2, d2))).collect::<Vec<_>>().join(" "),
+                defs.iter().map(|(_, _, e)| resolve_ref(e, &m2, d2)).collect::<Vec<_>>().join(" "),
+                resolve_ref(body, &m2, d2))
+        }
+        "IntegerLiteral" => kind_inner(&t.kind).to_owned(),
+        head => if t.kids.is_empty() { head.to_owned() } else { format!("({head} {})", t.kids.iter().map(|k| resolve_ref(k, m, d)).collect::<Vec<_>>().join(" ")) },
+    }
+}
+
+pub fn scoped_ref(t: &Raw, dom: &HashSet<String>) -> bool {
+    let fresh = |x: &str, dom: &HashSet<String>| x == "_" || !dom.contains(x);
+    let bind = |dom: &HashSet<String>, x: &str| { let mut d = dom.clone(); if x != "_" { d.insert(x.to_owned()); } d };
+    match kind_head(&t.kind) {
+        "Variable" => { let x = kind_inner(&t.kind); x == "_" || dom.contains(x) }
+        "Lambda" => { let x = kind_inner(&t.kind).split(',').next().unwrap().to_owned();
+            (t.kids.len() == 1 || scoped_ref(&t.kids[0], dom)) && fresh(&x, dom) && scoped_ref(&t.kids[t.kids.len() - 1], &bind(dom, &x)) }
+        "Pi" => { let x = kind_inner(&t.kind).split(',').next().unwrap().to_owned();
+            scoped_ref(&t.kids[0], dom) && fresh(&x, dom) && scoped_ref(&t.kids[1], &bind(dom, &x)) }
+        "Let" => {
+            let (defs, body) = let_chain(t);
+            let mut d = dom.clone();
+            for (x, _, _) in &defs { if !fresh(x, &d) { return false; } d = bind(&d, x); }
+            defs.iter().all(|(_, a, e)| a.map_or(true, |a| scoped_ref(a, &d)) && scoped_ref(e, &d)) && scoped_ref(body, &d)
+        }
+        _ => t.kids.iter().all(|k| scoped_ref(k, dom)),
+    }
+}
